@@ -141,7 +141,7 @@ theorem handleTx_propsOK (s : St) (e : Bool) (ht : Int) (tx : TxIn) (hp : LedAll
     (hd : DistinctD s.lastVals) : LedAll (fun _ p => PropOK p) (handleTx s e ht tx).1.props := by
   by_cases hc : (handleTx s e ht tx).2.code = 0
   · by_cases h1 : tx.type = TRX_PROPOSAL
-    · obtain ⟨msg, start, period, applying, optType, opts, _, hprops⟩ := proposal_success h1 hc
+    · obtain ⟨msg, start, period, applying, optType, opts, _, hprops⟩ := proposal_successW h1 hc
       rw [hprops]
       exact hp.set _ _ _ (snapshot_ok s tx start period applying optType opts hd).1
     by_cases h2 : tx.type = TRX_VOTING
